@@ -50,7 +50,9 @@ def run(chk):
             n = len(a)
             return np.full(n * (n - 1) // 2, 3)
 
-    edge_sets = [list(range(0, 25)), [0, 1, 2, 3], [0, 1], [1, 2, 4, 8], [0, 0.5, 1.5, 2.5, 10], [2, 3], [0, 1, 2, 3, 4, 5, 6, 7]]
+    # (also uneven edge vectors whose FIRST bin is as wide as the average bin: [0,2,3,6,8], [1,3,4,7], [0,3,4,5,12])
+    edge_sets = [list(range(0, 25)), [0, 1, 2, 3], [0, 1], [1, 2, 4, 8], [0, 0.5, 1.5, 2.5, 10], [2, 3], [0, 1, 2, 3, 4, 5, 6, 7],
+                 [0, 2, 3, 6, 8], [1, 3, 4, 7], [0, 3, 4, 5, 12], [0, 2, 4, 6, 8]]
     pseudos = [0, 0.5, 1, Fraction(7, 3)]
     ops, checks = [], []
     pool = gen.all_strings("ACD", 4)
@@ -69,7 +71,7 @@ def run(chk):
         if which in ("default", "lev"):
             metric, mfields = (None if which == "default" else Levenshtein()), {"metric": "lev"}
         elif which == "wlev":
-            wi, wd, ws = rng.choice([(1, 2, 1), (3, 1, 2), (1, 1, 5), (2, 2, 3)])
+            wi, wd, ws = rng.choice([(1, 2, 1), (3, 1, 2), (1, 1, 5), (2, 2, 3), (2, 2, 2), (3, 3, 3)])      # incl. uniform weights other than 1
             metric = WeightedLevenshtein(insertion_weight=wi, deletion_weight=wd, substitution_weight=ws)
             mfields = {"metric": "wlev", "wi": wi, "wd": wd, "ws": ws}
         else:
